@@ -308,6 +308,7 @@ def run_case(chk, stream, case):
     trace_all = []          # the whole real trace for the oracle
     pings = []              # ids of pings sent and not yet answered (harness view)
     executed = []
+    diverged = False
     for ei, ev in enumerate(case["events"]):
         # the alphabet's restrictions are decided by the model (same predicate the theorems use)
         arg = ""
@@ -324,6 +325,7 @@ def run_case(chk, stream, case):
             continue
         executed.append(ev + arg)
         chk.hit("ev:" + ev.split(":")[0])
+        open_before = any(x.open for x in FakeDispatcher.created)
         del FakeDispatcher.LOG[:]
         nnear, ntop = len(near.events), len(top.received)
         nearev0 = len(near.events)
@@ -412,10 +414,10 @@ def run_case(chk, stream, case):
         # pings: the model says pingSent + written/dropped; the real trace shows the write
         mobs_cmp = [x for x in mobs if x not in ("pingSent", "dropped")]
         obs_cmp = [x for x in obs if x != "dropped"]
-        trace_all.append((mev, obs))
-        if sorted(obs_cmp) != sorted(mobs_cmp):
-            fails.append(corr("history:" + ev.split(":")[0], "event #%d %s of %s (opt %s): impl=%s model=%s" % (ei, mev, executed, case["opt"], obs, mobs)))
-            break
+        trace_all.append((mev, obs if open_before else obs + ["noOpenConnectionBefore"]))
+        if sorted(obs_cmp) != sorted(mobs_cmp) and not diverged:
+            fails.append(corr("history:" + ev.split(":")[0], "event #%d %s of %s (opt %s): impl=%s model=%s" % (ei, mev, list(executed), case["opt"], obs, mobs)))
+            diverged = True      # the real stack runs on (the model only decides the alphabet from here): the oracle sees the whole history
     # ---- oracle on the real trace
     fails += check_trace(case, executed, trace_all)
     # stop the keep-alive thread of this stack
@@ -437,6 +439,10 @@ def check_trace(case, executed, trace):
         downs = obs.count("downNear")
         if ev.startswith("connect") or ev.startswith("dConnected"):
             reconnect_expected = reconnect_expected and "up" not in obs      # a new 'connected' clears the interface layer's reconnect flag
+        if ev in ("connectReq", "connectEvt") and "noOpenConnectionBefore" in obs and not any(o.startswith("created") for o in obs):
+            out.append(oracle("C16:connect-request-ignored", "history %s: no connection exists or is being established (every earlier one was closed), yet the connect "
+                              "request starts none: transport state was not reset" % executed[:i + 1]))
+            break
         if ev.startswith("dConnected"):
             if ups != 1 or sum(1 for o in obs if o.startswith("authAttempt")) != 1:
                 out.append(oracle("C16:connect-not-announced-once", "history %s: after %s the stack announced connected %d time(s) and started %d login attempt(s)"
